@@ -60,6 +60,18 @@ type c01bSess struct {
 	holdSend   bool
 	holdDetach bool
 	kick       chan struct{}
+	syncReq    chan chan struct{}
+}
+
+// pause: the loop stops taking from Session.send / Session.detach and has acknowledged it, so that
+// Session.cleanUp (purgeChannels: `for len(ch) > 0 { <-ch }`) is the only reader of those channels
+func (bs *c01bSess) pause() {
+	bs.mu.Lock()
+	bs.holdSend, bs.holdDetach = true, true
+	bs.mu.Unlock()
+	ack := make(chan struct{})
+	bs.syncReq <- ack
+	<-ack
 }
 
 func (bs *c01bSess) kickLoop() {
@@ -139,6 +151,8 @@ func (bs *c01bSess) loop() {
 			close(bs.vs.done)
 			return
 		case <-bs.kick:
+		case ack := <-bs.syncReq:
+			close(ack)
 		}
 	}
 }
@@ -159,7 +173,7 @@ func c01bNewSession(idx int, uid types.Uid) *c01bSess {
 	}
 	s.bkgTimer = time.NewTimer(time.Hour)
 	s.bkgTimer.Stop()
-	bs := &c01bSess{vs: &vSess{s: s, idx: idx, done: make(chan bool)}, kick: make(chan struct{}, 1)}
+	bs := &c01bSess{vs: &vSess{s: s, idx: idx, done: make(chan bool)}, kick: make(chan struct{}, 1), syncReq: make(chan chan struct{})}
 	go bs.loop()
 	return bs
 }
@@ -269,7 +283,7 @@ func (sc *c01bScn) dropAll() {
 	sc.releaseMid()
 	vWaitQuiet([]string{sc.topic})
 	for _, b := range sc.bs {
-		b.hold(false, false)
+		b.pause()
 		b.vs.s.cleanUp(true)
 		<-b.vs.done
 	}
